@@ -1,8 +1,10 @@
 #!/bin/bash
-# tools/run_thorough.sh <ID>...  runs thorough tiers sequentially (each capped at 100 min), logs to logs/thorough-<ID>.log
+# tools/run_thorough.sh <ID>...  runs thorough tiers sequentially (each capped at CAP seconds, default 6000), logs to
+# logs/thorough-<ID>.log and appends one line per run to logs/thorough-summary.txt. VERIF_WORKERS is passed through.
+CAP=${CAP:-6000}
 for id in "$@"; do
   s=$(date +%s)
-  timeout 6000 /verif/check $id thorough > /verif/logs/thorough-$id.log 2>&1
+  timeout $CAP /verif/check $id thorough > /verif/logs/thorough-$id.log 2>&1
   rc=$?
   echo "$id thorough rc=$rc $(( $(date +%s) - s ))s $(grep -E 'thorough:' /verif/logs/thorough-$id.log | head -1)" >> /verif/logs/thorough-summary.txt
 done
